@@ -237,6 +237,19 @@ class ArgparseRunner:
                     [x for x, _ in self._root_namespace.get_all_datatypes()],
                     lambda p: str(p.source_file_path.as_posix()),
                 )
+            # Definitions found through --lookup-dir (or DSDL_INCLUDE_PATH) are compiled into the output of the types
+            # that use them. The front end does not report which of them it read, so all of them are inputs.
+            self._stdout_lister(self._lookup_dsdl_files(), lambda p: str(p.resolve()))
+
+    def _lookup_dsdl_files(self) -> typing.List[pathlib.Path]:
+        """
+        Every DSDL definition below the lookup directories, enumerated the way the DSDL front end finds them.
+        """
+        files: typing.Set[pathlib.Path] = set()
+        for lookup_dir in self._extra_includes:
+            for pattern in ("*.dsdl", "*.uavcan"):
+                files.update(p for p in pathlib.Path(str(lookup_dir)).rglob(pattern) if p.is_file())
+        return sorted(files)
 
     def _list_configuration_only(self) -> None:
         lctx = self._language_context
